@@ -37,7 +37,7 @@ PLANS["C10"] = {
     "thorough": [J("wedge", "p=2,f=3,s=2", 900), J("wedgeburst", "p=2,f=2,s=1", 400), J("wedgeblock", "p=1,f=2,s=1", 400)],
 }
 PLANS["C11"] = {
-    "quick": [J("reqresp", "p=1,f=1,sel=1", 60), J("reqresp", "f=1,s=2", 40), J("hostile", "f=1", 40), J("c11-idwrap", "quick", 120, test="TestE3", shards=1)],
+    "quick": [J("reqresp", "p=1,f=1,sel=1", 60), J("reqresp", "f=1,s=2", 40), J("hostile", "f=1", 40), J("connectretry", "f=2", 40), J("c11-idwrap", "quick", 120, test="TestE3", shards=1)],
     "thorough": [J("reqresp", "p=3,f=2,s=2,sel=1", 900), J("c11-idwrap", "thorough", 120, test="TestE3", shards=1)],
 }
 PLANS["C12"] = {
